@@ -57,8 +57,8 @@ def gen_config(name):
 
 
 def _classify_key_size(config, key_type, key_size):
-    if isinstance(key_size, str):
-        # size provided via a variable - can't process it at the moment
+    if not isinstance(key_size, (int, float)):
+        # size provided via a variable or not a number - can't process it
         return
 
     key_sizes = {
@@ -135,7 +135,9 @@ def _weak_crypto_key_size_cryptography_io(context, config):
             len(context.call_args) > arg_position[key_type]
             and context.call_args[arg_position[key_type]]
         )
-        key_size = curve_key_sizes[curve] if curve in curve_key_sizes else 224
+        key_size = (
+            curve_key_sizes.get(curve, 224) if isinstance(curve, str) else 224
+        )
         return _classify_key_size(config, key_type, key_size)
 
 
